@@ -173,6 +173,9 @@ func init() {
 			BFS(c, &HistFamily{Nmax: nrt, Insts: append(stdInsts([]uint8{0, 63}, []string{"even"})[1:], flagOffInsts()...), Or: HistOracle{Proofs: true, Prop: "C02", OnlyAfter: "roundtrip"}, RTBud: 1, PermLimit: 2}, 0)
 		}
 		queriedFamily(c, HistOracle{Proofs: true, ProofSets: "small", Prop: "C02"})
+		if !c.Expired() {
+			manyRootsFamily(c, "C02")
+		}
 		tallFamily(c, "C02")
 	}
 
